@@ -11,7 +11,7 @@ CONSTANTS
   MaxExplored = 1
   MaxDup = 0
   MaxRestarts = 1
-  Intermediate = TRUE
+  Intermediate = FALSE
 INVARIANT HistoryOK
 INVARIANT EnvConsistent
 INVARIANT IdleIsSynced
